@@ -1307,7 +1307,14 @@ func (e *Env) mapGet(b Val, m *types.Map, k Val) Val {
 	if seqLike(k) {
 		kt = e.asSeq(k)
 	}
-	return Val{T: "(select (select " + e.g.heap(e.cur, vk) + " " + b.T + ") " + kt + ")", Sort: e.u().sortOf(m.Elem()), GoT: m.Elem()}
+	raw := "(select (select " + e.g.heap(e.cur, vk) + " " + b.T + ") " + kt + ")"
+	if e.inPat {
+		return Val{T: raw, Sort: e.u().sortOf(m.Elem()), GoT: m.Elem()}
+	}
+	// Go semantics of m[k]: the zero value when k is not a key (or m is nil)
+	dk, _, _ := e.g.mapHeapKinds(m)
+	has := "(and (not (= " + b.T + " nilloc)) (select (select " + e.g.heap(e.cur, dk) + " " + b.T + ") " + kt + "))"
+	return Val{T: "(ite " + has + " " + raw + " " + e.g.zeroTerm(m.Elem()) + ")", Sort: e.u().sortOf(m.Elem()), GoT: m.Elem()}
 }
 
 func (e *Env) mapHas(b Val, m *types.Map, k Val) string {
